@@ -101,7 +101,7 @@ def c06(run: Run):
     for f in base + [x for x in xz_files(run, 40, lz2) if len(x["blocks"]) >= 2 and len(x["data"]) < 4000][:sizes(run.tier, 3, 20)]:
         for bi, b0 in enumerate(f["blocks"][:2]):
             for which, true in (("unpacked", len(b0.out)), ("packed", len(b0.payload))):
-                for val in (0, 1, true + 1, true - 1, 2**21, true + 128):
+                for val in (0, 1, true + 1, true - 1, 2**21, true + 128, true + 2**64, true + 63 * 2**64):  # the last two: ten-byte encodings whose low 64 bits are right (seeded change C06f-2)
                     if val == true or val < 0:
                         continue
                     bl = [core.XzBlock(b.payload, b.out, b.decl_packed, b.decl_unpacked, b.extra_pad_words, dict(b.widths),
@@ -961,6 +961,27 @@ def c11(run: Run):
         rk = rng.pick(rks)
         run.add("lzma2 rk=%s in=%s" % (rk, (m["payload"] + trail).hex()), oracle=used_is(len(m["payload"]), m["out"]),
                 tag="c11:lzma2", nontrivial=len(trail) > 0)
+    # one raw decoder object decoding several payloads embedded back to back in a larger container, in place
+    # (no reset in between: legitimate, every LZMA2 stream opens with a dictionary reset): each decode must
+    # stop just after ITS end byte and deliver ITS data (seeded change C11f-1: a latched "finished" flag)
+    for i in range(sizes(run.tier, 12, 80)):
+        seq = [rng.pick(lz2) for _ in range(rng.below(3) + 2)]
+        trail = rng.pick([b"", b"\x00", rng.bytes(rng.below(16) + 1)])
+        ops, exp = [], []
+        for j in range(len(seq)):
+            rest = b"".join(x["payload"] for x in seq[j:]) + trail
+            if rng.below(5) == 0:
+                ops.append("r"); exp.append("r")
+            ops.append("d:" + rest.hex())
+            exp.append("ok:%d:%s" % (len(seq[j]["payload"]), out_repr(seq[j]["out"])))
+        def container_oracle(res, meta, peak, exp=exp):
+            got = res.split(" ")[1:]
+            if got != exp:
+                k = next((n for n, (a, b) in enumerate(zip(got, exp)) if a != b), min(len(got), len(exp)))
+                return "payload #%d decoded in place by a reused raw decoder: expected `%s`, got `%s`" % (
+                    k, exp[k][:60] if k < len(exp) else "-", got[k][:60] if k < len(got) else "-")
+            return None
+        run.add("rawlzma2 %sops=%s" % (rng.pick(["", "", "ctor=default "]), ";".join(ops)), oracle=container_oracle, tag="c11:rawlzma2:container")
     for f in xz_files(run, sizes(run.tier, 15, 100), lz2):
         for trail in (rng.pick([b"\x00", b"\x00" * 4, rng.bytes(rng.below(12) + 1)]),
                       rng.pick([f["data"], b"YZ", rng.bytes(rng.below(20)) + b"YZ", b"\x00" * 4 + f["data"], f["data"][-12:]])):
@@ -1196,6 +1217,53 @@ def c12_post(run):
 
 # ----------------------------------------------------------------- C13
 
+def xz_block_header_ranges(data):
+    """(start, end) byte ranges of the block headers of an .xz file, found by walking the framing the way the
+    decoder does (stream header, per block: header size byte, LZMA2 chunk framing, padding, check); the walk
+    stops at the first thing it cannot follow, so a range is reported only for headers the decoder can reach"""
+    out = []
+    if len(data) < 12:
+        return out
+    check = {0: 0, 1: 4, 4: 8, 10: 32}.get(data[7] & 0x0F)
+    o = 12
+    while o < len(data) and data[o] != 0 and check is not None:
+        hs = (data[o] + 1) * 4
+        out.append((o, o + hs))
+        q = o + hs
+        while True:                      # LZMA2 chunks
+            if q >= len(data):
+                return out
+            c = data[q]
+            if c == 0:
+                q += 1
+                break
+            if c in (1, 2):
+                if q + 3 > len(data):
+                    return out
+                q += 3 + ((data[q + 1] << 8) | data[q + 2]) + 1
+            elif c >= 0x80:
+                if q + 5 > len(data):
+                    return out
+                q += 5 + (1 if c >= 0xC0 else 0) + ((data[q + 3] << 8) | data[q + 4]) + 1
+            else:
+                return out
+        q += (-(q - o)) % 4
+        o = q + check
+    return out
+
+
+def k2_site(line, pos_a, pos_b):
+    """known finding K2 is the read-ahead of `BufReader` over `Take` inside decode::xz::read_block_header: both
+    reader positions then lie inside one block header (its first byte .. its end).  A position difference
+    anywhere else (stream header, block data, index, footer, trailing bytes) is NOT K2 and is reported."""
+    try:
+        a, b = int(pos_a), int(pos_b)
+        data = bytes.fromhex(core.fields(line).get("in", ""))
+    except (TypeError, ValueError):
+        return False
+    return any(lo <= a <= hi and lo <= b <= hi for lo, hi in xz_block_header_ranges(data))
+
+
 def c13(run: Run):
     rng = run.rng
     lzm = [m for m in core.gen_material("lzma", run.seed + 13, 100) if m["dict"] >= 4096 and len(m["payload"]) < 2000]
@@ -1232,6 +1300,16 @@ def c13(run: Run):
         # the flat case is also compared with the model (without the pos field)
         run.add("%s in=%s" % (op, data.hex()), oracle=no_crash, tag="c13:model", nontrivial=False)
 
+    # a declared size on a stream that ALSO carries an end marker (no encoder writes one, so the material above has
+    # none): the decoder stops at the size, and how much it has consumed at that moment must not depend on how many
+    # bytes the reader happened to have buffered (seeded change C13f-1: an optional marker swallowed by look-ahead)
+    for m in [x for x in lzm if x["eos"] and len(x["out"]) > 0][:sizes(run.tier, 10, 60)]:
+        base = lzma_file(m, size=len(m["out"]))
+        for data in (base, base + rng.bytes(rng.below(30) + 1)):
+            ks = [run.add("lzma us=hdr rk=%s pos=1 in=%s" % (rk, data.hex()), oracle=no_crash, cmp=False, tag="c13:lzma:size+marker")
+                  for rk in ["flat", "buf:1", "buf:2", rng.pick(["buf:3", "buf:5", "buf:7"]), rng.pick(["buf:16", "buf:64", "cur"]),
+                             "frag:%d:%d" % (rng.below(1000) + 1, rng.pick([1, 2, 3]))]]
+            groups.append((ks, "lzma", 0))
     # K2 witness: an error at the start of the block header (reserved flag bit, CRC recomputed)
     for f in [x for x in xzs if x["blocks"]][:3]:
         d = bytearray(f["data"])
@@ -1254,7 +1332,7 @@ def c13(run: Run):
                     run.report_violation(k, run.cases[int(k)][1], meta, r,
                                          "verdict/output/consumed differ from the all-at-once reader: `%s`" % ref[:120])
                 elif f.get("pos") != rf.get("pos"):
-                    if op == "xz" and v(r) == "err":
+                    if op == "xz" and v(r) == "err" and k2_site(run.cases[int(k)][1], f.get("pos"), rf.get("pos")):
                         m2 = dict(meta, tag="c13:xz-error-position")
                         run.report_violation(k, run.cases[int(k)][1], m2, r,
                                              "reader position after an xz error depends on fragmentation (%s vs %s)" % (f.get("pos"), rf.get("pos")))
@@ -1428,6 +1506,29 @@ def c14(run: Run):
 def c17(run: Run):
     rng = run.rng
     mats = [m for m in lzma2_material(run, 80, 900, 10, 80) if len(m["payload"]) < 5000]
+
+    # a compressed chunk whose last match runs past its declared size, with the declared END on a multiple of 64 KiB
+    # (since the last dictionary reset) and next to it — a window that grows in 64 KiB steps has no slack exactly there
+    # (seeded change C17f-1).  The chunk is the reference encoder's; only the declared size in its header is lowered.
+    def overshoot_rejected(res, meta, peak):
+        return None if res.split(" ")[0] == "err" or res.split(" ")[-1].startswith("err") else \
+            "chunk producing %d bytes beyond its declared size accepted: %s" % (meta.get("over"), res[:80])
+    for pre, over in ((0, 2), (4096, 5), (0, 1)) if run.tier == "quick" else ((0, 2), (4096, 5), (0, 1), (65536, 3), (1, 7), (65535, 2)):
+        lits = 65536 - pre - 8 + over
+        m = core.script([dict(kind="lzma2", chunks=("V1:%d.%d|" % (pre, rng.below(99)) if pre else "") +
+                              "C%d:3.0.2:X%d.%d.200,M7.8" % (3 if not pre else 2, lits, rng.below(99)))])[0]
+        pay = bytearray(m["payload"])
+        o = (3 + pre) if pre else 0                    # offset of the compressed chunk's header
+        true = lits + 8
+        assert pay[o] & 0xE0 in (0xE0, 0xC0) and ((pay[o] & 0x1F) << 16 | pay[o + 1] << 8 | pay[o + 2]) + 1 == true, "script layout"
+        for decl in (true - over, true - over + 1, true - over - 1):
+            if decl == true:
+                continue
+            q = bytearray(pay)
+            q[o] = (q[o] & 0xE0) | ((decl - 1) >> 16)
+            q[o + 1], q[o + 2] = ((decl - 1) >> 8) & 0xFF, (decl - 1) & 0xFF
+            run.add("lzma2 in=%s" % bytes(q).hex(), oracle=overshoot_rejected, tag="c17:overshoot-at-64k", over=true - decl, nontrivial=(decl == true - over))
+            run.add("rawlzma2 ops=d:%s" % bytes(q).hex(), oracle=overshoot_rejected, tag="c17:overshoot-at-64k:raw", over=true - decl, nontrivial=False)
 
     def reject_if_liblzma_rejects(data):
         ref = liblzma_raw2(data)
@@ -1639,6 +1740,17 @@ def c18(run: Run):
         for padn in (4, 8, 12):
             run.add("xz in=%s" % (f["data"] + bytes(padn)).hex(), oracle=refused, tag="c18:stream-padding", feature="stream padding")
             run.add("xz in=%s" % (f["data"] + bytes(padn) + other).hex(), oracle=refused, tag="c18:padding+stream", feature="padding + stream")
+    # a second stream / padding that arrives in its own piece, with ONE read call interrupted (EINTR) — the end-of-input
+    # probe after the first footer included: whatever the reader does there, the file must not be accepted as the first
+    # stream alone (seeded change C18f-1).  Implementation-only: the model's monad does not continue after a fault.
+    # (every `fill_buf`/`read` call counts, one per symbol: sweep the call index over the whole decode)
+    for f in sorted([x for x in base if x["blocks"]], key=lambda x: len(x["data"]))[:sizes(run.tier, 2, 8)]:
+        other = min((x["data"] for x in base), key=len)
+        n = len(f["data"])
+        for tail, what in ((other, "concatenated streams"), (bytes(4) + other, "padding + stream"), (bytes(8), "stream padding")):
+            for k in range(1, min(3 * n + 40, 1500)):
+                run.add("xz rk=cut:%d rfail=%d rfk=interrupted in=%s" % (n, k, (f["data"] + tail).hex()), oracle=refused, cmp=False,
+                        tag="c18:interrupted-probe", feature=what + ", read call #%d interrupted once" % k, nontrivial=False)
     # SHA-256 without blocks (finding F4) as liblzma writes it
     enc = pylzma.compress(b"", format=pylzma.FORMAT_XZ, check=pylzma.CHECK_SHA256)
     run.add("xz in=%s" % enc.hex(), oracle=refused, tag="c18:witness-F4", feature="sha256, zero blocks")
